@@ -10,6 +10,7 @@ package sctp
 // accepted message has been read.
 
 import (
+	"context"
 	"fmt"
 	"math/rand"
 	"sync"
@@ -173,6 +174,140 @@ func init() {
 			close(stopNet)
 			netWG.Wait()
 			rdWG.Wait()
+		}
+	}
+}
+
+// mw-shut: several goroutines write the same stream of an ordinary (non-blocking) association while Shutdown is
+// called concurrently. Writes fail from the moment the association leaves the established state; whatever was
+// accepted before must carry gapless numbers and -- Shutdown having returned nil -- must have been delivered.
+func init() {
+	vfModes["mw-shut"] = func(t *testing.T) {
+		seed := int64(vfEnvInt("VF_SEED", 1))
+		shard := vfEnvInt("VF_SHARD", 0)
+		n := vfEnvInt("VF_N", 30)
+		out, err := vfNewTrace(vfOut(fmt.Sprintf("mw-shut-%d.ndjson", shard)))
+		if err != nil {
+			t.Fatal(err)
+		}
+		defer out.close()
+		for k := 0; k < n; k++ {
+			r := rand.New(rand.NewSource(seed*104729 + int64(shard)*211 + int64(k)))
+			il := r.Intn(2) == 0
+			nw := 3 + r.Intn(3)
+			label := fmt.Sprintf("mw-shut-il%v-w%d#%d-%d-%d", il, nw, seed, shard, k)
+			mem, _ := vfNewTrace("")
+			w := vfNewWorld(vfWorldOpt{Label: label, Trace: mem, RT: true, NoSnap: true,
+				A: vfEpCfg{InitTSN: r.Uint32(), Tag: 0xA5, IL: il}, B: vfEpCfg{InitTSN: r.Uint32(), Tag: 0xB5, IL: il, Server: true}})
+			stopNet := make(chan struct{})
+			var netWG sync.WaitGroup
+			netWG.Add(1)
+			go func() {
+				defer netWG.Done()
+				for {
+					select {
+					case <-stopNet:
+						return
+					case <-w.activity:
+					case <-time.After(300 * time.Microsecond):
+					}
+					for _, p := range w.pending(-1) {
+						if q := w.take(p.id); q != nil {
+							w.push(1-q.from, q.raw)
+						}
+					}
+				}
+			}()
+			w.start(1)
+			w.start(0)
+			est := false
+			for i := 0; i < 5000 && !est; i++ {
+				time.Sleep(time.Millisecond)
+				w.mu.Lock()
+				est = w.ep[0].connRet && w.ep[1].connRet && w.ep[0].connErr == nil && w.ep[1].connErr == nil
+				w.mu.Unlock()
+			}
+			if !est {
+				t.Fatalf("%s: associations did not establish", label)
+			}
+			out.emit(map[string]any{"ev": "mwcfg", "label": label, "il": il, "writers": nw})
+			w.open(0, 1, 51)
+			var rdWG sync.WaitGroup
+			rdWG.Add(1)
+			go func() {
+				defer rdWG.Done()
+				s, err := w.ep[1].a.AcceptStream()
+				if err != nil {
+					return
+				}
+				buf := make([]byte, 1<<16)
+				for {
+					nb, _, err := s.ReadSCTP(buf)
+					if err != nil {
+						return
+					}
+					out.emit(map[string]any{"ev": "rd", "sid": 1, "id": w.identMsg(0, 1, buf[:nb])})
+				}
+			}()
+			st := w.stream(0, 1)
+			var wrWG sync.WaitGroup
+			var oks int64
+			for g := 0; g < nw; g++ {
+				wr := rand.New(rand.NewSource(seed*17 + int64(g) + int64(k)*100))
+				wrWG.Add(1)
+				go func() {
+					defer wrWG.Done()
+					for i := 0; i < 40; i++ {
+						m := w.newMsg(0, 1, 20+wr.Intn(200), 51)
+						w.indexFrags(m, int(w.ep[0].a.maxPayloadSize))
+						_, err := st.WriteSCTP(m.Payload, 51)
+						out.emit(map[string]any{"ev": "wret", "sid": 1, "id": m.ID, "ok": err == nil, "err": vfErrClass(err)})
+						if err != nil {
+							return
+						}
+						atomic.AddInt64(&oks, 1)
+					}
+				}()
+			}
+			time.Sleep(time.Duration(100+r.Intn(1500)) * time.Microsecond)
+			ctx, cancel := context.WithTimeout(context.Background(), 8*time.Second)
+			serr := w.ep[0].a.Shutdown(ctx)
+			cancel()
+			wrWG.Wait()
+			// the peer's reader ends when the association closes
+			done := make(chan struct{})
+			go func() { rdWG.Wait(); close(done) }()
+			select {
+			case <-done:
+			case <-time.After(5 * time.Second):
+			}
+			mem.mu.Lock()
+			seen := map[int]bool{}
+			for _, e := range mem.keep {
+				if e["ev"] == "c" && e["ep"] == 0 && (e["k"] == "data" || e["k"] == "idata") && e["b"] == true {
+					tsn, _ := e["tsn"].(int)
+					if seen[tsn] {
+						continue
+					}
+					seen[tsn] = true
+					sq := e["ssn"]
+					if il {
+						sq = e["mid"]
+					}
+					out.emit(map[string]any{"ev": "wire", "sid": e["sid"], "id": e["id"], "seq": sq, "tsn": tsn})
+				}
+			}
+			mem.keep = nil
+			mem.mu.Unlock()
+			// a graceful shutdown that returned nil has had everything acknowledged
+			out.emit(map[string]any{"ev": "mwend", "sender_idle": serr == nil, "shutdown": vfErrClass(serr), "oks": int(atomic.LoadInt64(&oks))})
+			w.ep[0].conn.Close()
+			w.ep[1].conn.Close()
+			w.ep[0].a.Close() //nolint:errcheck
+			w.ep[1].a.Close() //nolint:errcheck
+			close(stopNet)
+			netWG.Wait()
+			<-done
 		}
 	}
 }
